@@ -54,9 +54,10 @@ def LineAlgo.intersect {α : Type} [Add α] [Sub α] [Mul α] [Div α] [Neg α] 
   let t264 := (t262 / t263)
   let t265 := (t259 / t263)
   let t266 := (t256 / t263)
+  let t274 := (((t264 * (v0.x - l.pos.x)) + (t265 * (v0.y - l.pos.y))) + (t266 * (v0.z - l.pos.z)))
   let t279 := (((t264 * l.dir.x) + (t265 * l.dir.y)) + (t266 * l.dir.z))
   let t280 := (sabs t279)
-  let t281 := ((((t264 * (v0.x - l.pos.x)) + (t265 * (v0.y - l.pos.y))) + (t266 * (v0.z - l.pos.z))) / t279)
+  let t281 := (t274 / t279)
   let t285 := (l.pos.z + (l.dir.z * t281))
   let t286 := (l.pos.y + (l.dir.y * t281))
   let t287 := (l.pos.x + (l.dir.x * t281))
@@ -119,6 +120,8 @@ def LineAlgo.intersect {α : Type} [Add α] [Sub α] [Mul α] [Div α] [Neg α] 
   let t440 := (t434 / t439)
   let t441 := (t360 - t440)
   let t442 := (t403 - t440)
+  let t443 := (tmax * t280)
+  let t444 := (sabs t274)
   if t263 = (0 : α) then
     (false, ⟨(0 : α), (0 : α), (0 : α)⟩, ⟨(0 : α), (0 : α), (0 : α)⟩, false)
   else
@@ -194,7 +197,7 @@ def LineAlgo.intersect {α : Type} [Add α] [Sub α] [Mul α] [Div α] [Neg α] 
         else
           (false, ⟨t287, t286, t285⟩, ⟨(0 : α), (0 : α), (0 : α)⟩, false)
     else
-      if (0 : α) < t280 then
+      if t444 < t443 then
         if t288 = (0 : α) then
           if (0 : α) ≤ t317 then
             if t317 ≤ t322 then
@@ -270,28 +273,28 @@ def LineAlgo.intersect {α : Type} [Add α] [Sub α] [Mul α] [Div α] [Neg α] 
 
 /-- extracted from the C++ template at T = Sym; 4 path(s) -/
 def LineAlgo.closestVertex {α : Type} [Add α] [Sub α] [Mul α] [LT α] [DecidableLT α] (v0 : V3 α) (v1 : V3 α) (v2 : V3 α) (l : Line3 α) : (V3 α) :=
-  let t447 := ((((v0.x - l.pos.x) * l.dir.x) + ((v0.y - l.pos.y) * l.dir.y)) + ((v0.z - l.pos.z) * l.dir.z))
-  let t454 := (v0.z - ((t447 * l.dir.z) + l.pos.z))
-  let t455 := (v0.y - ((t447 * l.dir.y) + l.pos.y))
-  let t456 := (v0.x - ((t447 * l.dir.x) + l.pos.x))
-  let t461 := (((t456 * t456) + (t455 * t455)) + (t454 * t454))
-  let t469 := ((((v1.x - l.pos.x) * l.dir.x) + ((v1.y - l.pos.y) * l.dir.y)) + ((v1.z - l.pos.z) * l.dir.z))
-  let t476 := (v1.z - ((t469 * l.dir.z) + l.pos.z))
-  let t477 := (v1.y - ((t469 * l.dir.y) + l.pos.y))
-  let t478 := (v1.x - ((t469 * l.dir.x) + l.pos.x))
-  let t483 := (((t478 * t478) + (t477 * t477)) + (t476 * t476))
-  let t491 := ((((v2.x - l.pos.x) * l.dir.x) + ((v2.y - l.pos.y) * l.dir.y)) + ((v2.z - l.pos.z) * l.dir.z))
-  let t498 := (v2.z - ((t491 * l.dir.z) + l.pos.z))
-  let t499 := (v2.y - ((t491 * l.dir.y) + l.pos.y))
-  let t500 := (v2.x - ((t491 * l.dir.x) + l.pos.x))
-  let t505 := (((t500 * t500) + (t499 * t499)) + (t498 * t498))
-  if t483 < t461 then
-    if t505 < t483 then
+  let t449 := ((((v0.x - l.pos.x) * l.dir.x) + ((v0.y - l.pos.y) * l.dir.y)) + ((v0.z - l.pos.z) * l.dir.z))
+  let t456 := (v0.z - ((t449 * l.dir.z) + l.pos.z))
+  let t457 := (v0.y - ((t449 * l.dir.y) + l.pos.y))
+  let t458 := (v0.x - ((t449 * l.dir.x) + l.pos.x))
+  let t463 := (((t458 * t458) + (t457 * t457)) + (t456 * t456))
+  let t471 := ((((v1.x - l.pos.x) * l.dir.x) + ((v1.y - l.pos.y) * l.dir.y)) + ((v1.z - l.pos.z) * l.dir.z))
+  let t478 := (v1.z - ((t471 * l.dir.z) + l.pos.z))
+  let t479 := (v1.y - ((t471 * l.dir.y) + l.pos.y))
+  let t480 := (v1.x - ((t471 * l.dir.x) + l.pos.x))
+  let t485 := (((t480 * t480) + (t479 * t479)) + (t478 * t478))
+  let t493 := ((((v2.x - l.pos.x) * l.dir.x) + ((v2.y - l.pos.y) * l.dir.y)) + ((v2.z - l.pos.z) * l.dir.z))
+  let t500 := (v2.z - ((t493 * l.dir.z) + l.pos.z))
+  let t501 := (v2.y - ((t493 * l.dir.y) + l.pos.y))
+  let t502 := (v2.x - ((t493 * l.dir.x) + l.pos.x))
+  let t507 := (((t502 * t502) + (t501 * t501)) + (t500 * t500))
+  if t485 < t463 then
+    if t507 < t485 then
       ⟨v2.x, v2.y, v2.z⟩
     else
       ⟨v1.x, v1.y, v1.z⟩
   else
-    if t505 < t461 then
+    if t507 < t463 then
       ⟨v2.x, v2.y, v2.z⟩
     else
       ⟨v0.x, v0.y, v0.z⟩
@@ -302,228 +305,228 @@ def LineAlgo.rotatePoint {α : Type} [Add α] [Sub α] [Mul α] [Div α] [Neg α
   let t41 := ((t37 * l.dir.z) + l.pos.z)
   let t42 := ((t37 * l.dir.y) + l.pos.y)
   let t43 := ((t37 * l.dir.x) + l.pos.x)
-  let t507 := (p.z - t41)
-  let t508 := (p.y - t42)
-  let t509 := (p.x - t43)
-  let t510 := (V3.length tmin tmax sqrt ⟨t509, t508, t507⟩)
-  let t513 := ((t509 * l.dir.y) - (t508 * l.dir.x))
-  let t516 := ((t507 * l.dir.x) - (t509 * l.dir.z))
-  let t519 := ((t508 * l.dir.z) - (t507 * l.dir.y))
-  let t520 := (V3.length tmin tmax sqrt ⟨t519, t516, t513⟩)
-  let t521 := (cos angle)
-  let t522 := (sin angle)
-  let t535 := (t41 + ((t507 * t510) * t521))
-  let t536 := (t42 + ((t508 * t510) * t521))
-  let t537 := (t43 + ((t509 * t510) * t521))
-  let t553 := (t509 / t510)
-  let t554 := (t508 / t510)
-  let t555 := (t507 / t510)
-  let t558 := ((t553 * l.dir.y) - (t554 * l.dir.x))
-  let t561 := ((t555 * l.dir.x) - (t553 * l.dir.z))
-  let t564 := ((t554 * l.dir.z) - (t555 * l.dir.y))
-  let t565 := (V3.length tmin tmax sqrt ⟨t564, t561, t558⟩)
-  let t578 := (t41 + ((t555 * t510) * t521))
-  let t579 := (t42 + ((t554 * t510) * t521))
-  let t580 := (t43 + ((t553 * t510) * t521))
-  if t510 = (0 : α) then
-    if t520 = (0 : α) then
-      ⟨(t537 + ((t519 * t510) * t522)), (t536 + ((t516 * t510) * t522)), (t535 + ((t513 * t510) * t522))⟩
+  let t509 := (p.z - t41)
+  let t510 := (p.y - t42)
+  let t511 := (p.x - t43)
+  let t512 := (V3.length tmin tmax sqrt ⟨t511, t510, t509⟩)
+  let t515 := ((t511 * l.dir.y) - (t510 * l.dir.x))
+  let t518 := ((t509 * l.dir.x) - (t511 * l.dir.z))
+  let t521 := ((t510 * l.dir.z) - (t509 * l.dir.y))
+  let t522 := (V3.length tmin tmax sqrt ⟨t521, t518, t515⟩)
+  let t523 := (cos angle)
+  let t524 := (sin angle)
+  let t537 := (t41 + ((t509 * t512) * t523))
+  let t538 := (t42 + ((t510 * t512) * t523))
+  let t539 := (t43 + ((t511 * t512) * t523))
+  let t555 := (t511 / t512)
+  let t556 := (t510 / t512)
+  let t557 := (t509 / t512)
+  let t560 := ((t555 * l.dir.y) - (t556 * l.dir.x))
+  let t563 := ((t557 * l.dir.x) - (t555 * l.dir.z))
+  let t566 := ((t556 * l.dir.z) - (t557 * l.dir.y))
+  let t567 := (V3.length tmin tmax sqrt ⟨t566, t563, t560⟩)
+  let t580 := (t41 + ((t557 * t512) * t523))
+  let t581 := (t42 + ((t556 * t512) * t523))
+  let t582 := (t43 + ((t555 * t512) * t523))
+  if t512 = (0 : α) then
+    if t522 = (0 : α) then
+      ⟨(t539 + ((t521 * t512) * t524)), (t538 + ((t518 * t512) * t524)), (t537 + ((t515 * t512) * t524))⟩
     else
-      ⟨(t537 + (((t519 / t520) * t510) * t522)), (t536 + (((t516 / t520) * t510) * t522)), (t535 + (((t513 / t520) * t510) * t522))⟩
+      ⟨(t539 + (((t521 / t522) * t512) * t524)), (t538 + (((t518 / t522) * t512) * t524)), (t537 + (((t515 / t522) * t512) * t524))⟩
   else
-    if t565 = (0 : α) then
-      ⟨(t580 + ((t564 * t510) * t522)), (t579 + ((t561 * t510) * t522)), (t578 + ((t558 * t510) * t522))⟩
+    if t567 = (0 : α) then
+      ⟨(t582 + ((t566 * t512) * t524)), (t581 + ((t563 * t512) * t524)), (t580 + ((t560 * t512) * t524))⟩
     else
-      ⟨(t580 + (((t564 / t565) * t510) * t522)), (t579 + (((t561 / t565) * t510) * t522)), (t578 + (((t558 / t565) * t510) * t522))⟩
+      ⟨(t582 + (((t566 / t567) * t512) * t524)), (t581 + (((t563 / t567) * t512) * t524)), (t580 + (((t560 / t567) * t512) * t524))⟩
 
 /-- extracted from the C++ template at T = Sym; 2 path(s) -/
 def VecAlgo2.project {α : Type} [Add α] [Mul α] [Div α] [Neg α] [LT α] [DecidableLT α] [DecidableEq α] [OfNat α 0] [OfNat α 2] (tmin : α) (tmax : α) (sqrt : α → α) (s : V2 α) (t : V2 α) : (V2 α) :=
-  let t600 := (V2.length tmin tmax sqrt ⟨s.x, s.y⟩)
-  let t604 := ((0 : α) * (((0 : α) * t.x) + ((0 : α) * t.y)))
-  let t605 := (s.y / t600)
-  let t606 := (s.x / t600)
-  let t609 := ((t606 * t.x) + (t605 * t.y))
-  if t600 = (0 : α) then
-    ⟨t604, t604⟩
+  let t602 := (V2.length tmin tmax sqrt ⟨s.x, s.y⟩)
+  let t606 := ((0 : α) * (((0 : α) * t.x) + ((0 : α) * t.y)))
+  let t607 := (s.y / t602)
+  let t608 := (s.x / t602)
+  let t611 := ((t608 * t.x) + (t607 * t.y))
+  if t602 = (0 : α) then
+    ⟨t606, t606⟩
   else
-    ⟨(t606 * t609), (t605 * t609)⟩
+    ⟨(t608 * t611), (t607 * t611)⟩
 
 /-- extracted from the C++ template at T = Sym; 2 path(s) -/
 def VecAlgo2.orthogonal {α : Type} [Add α] [Sub α] [Mul α] [Div α] [Neg α] [LT α] [DecidableLT α] [DecidableEq α] [OfNat α 0] [OfNat α 2] (tmin : α) (tmax : α) (sqrt : α → α) (s : V2 α) (t : V2 α) : (V2 α) :=
-  let t600 := (V2.length tmin tmax sqrt ⟨s.x, s.y⟩)
-  let t604 := ((0 : α) * (((0 : α) * t.x) + ((0 : α) * t.y)))
-  let t605 := (s.y / t600)
-  let t606 := (s.x / t600)
-  let t609 := ((t606 * t.x) + (t605 * t.y))
-  if t600 = (0 : α) then
-    ⟨(t.x - t604), (t.y - t604)⟩
+  let t602 := (V2.length tmin tmax sqrt ⟨s.x, s.y⟩)
+  let t606 := ((0 : α) * (((0 : α) * t.x) + ((0 : α) * t.y)))
+  let t607 := (s.y / t602)
+  let t608 := (s.x / t602)
+  let t611 := ((t608 * t.x) + (t607 * t.y))
+  if t602 = (0 : α) then
+    ⟨(t.x - t606), (t.y - t606)⟩
   else
-    ⟨(t.x - (t606 * t609)), (t.y - (t605 * t609))⟩
+    ⟨(t.x - (t608 * t611)), (t.y - (t607 * t611))⟩
 
 /-- extracted from the C++ template at T = Sym; 2 path(s) -/
 def VecAlgo2.reflect {α : Type} [Add α] [Sub α] [Mul α] [Div α] [Neg α] [LT α] [DecidableLT α] [DecidableEq α] [OfNat α 0] [OfNat α 2] (tmin : α) (tmax : α) (sqrt : α → α) (s : V2 α) (t : V2 α) : (V2 α) :=
-  let t616 := (V2.length tmin tmax sqrt ⟨t.x, t.y⟩)
-  let t620 := ((0 : α) * (((0 : α) * s.x) + ((0 : α) * s.y)))
-  let t628 := (t.y / t616)
-  let t629 := (t.x / t616)
-  let t632 := ((t629 * s.x) + (t628 * s.y))
-  if t616 = (0 : α) then
-    ⟨(s.x - ((2 : α) * (s.x - t620))), (s.y - ((2 : α) * (s.y - t620)))⟩
+  let t618 := (V2.length tmin tmax sqrt ⟨t.x, t.y⟩)
+  let t622 := ((0 : α) * (((0 : α) * s.x) + ((0 : α) * s.y)))
+  let t630 := (t.y / t618)
+  let t631 := (t.x / t618)
+  let t634 := ((t631 * s.x) + (t630 * s.y))
+  if t618 = (0 : α) then
+    ⟨(s.x - ((2 : α) * (s.x - t622))), (s.y - ((2 : α) * (s.y - t622)))⟩
   else
-    ⟨(s.x - ((2 : α) * (s.x - (t629 * t632)))), (s.y - ((2 : α) * (s.y - (t628 * t632))))⟩
+    ⟨(s.x - ((2 : α) * (s.x - (t631 * t634)))), (s.y - ((2 : α) * (s.y - (t630 * t634))))⟩
 
 /-- extracted from the C++ template at T = Sym; 4 path(s) -/
 def VecAlgo2.closestVertex {α : Type} [Add α] [Sub α] [Mul α] [LT α] [DecidableLT α] (v0 : V2 α) (v1 : V2 α) (v2 : V2 α) (p : V2 α) : (V2 α) :=
-  let t641 := (v0.y - p.y)
-  let t642 := (v0.x - p.x)
-  let t645 := ((t642 * t642) + (t641 * t641))
-  let t646 := (v1.y - p.y)
-  let t647 := (v1.x - p.x)
-  let t650 := ((t647 * t647) + (t646 * t646))
-  let t651 := (v2.y - p.y)
-  let t652 := (v2.x - p.x)
-  let t655 := ((t652 * t652) + (t651 * t651))
-  if t650 < t645 then
-    if t655 < t650 then
+  let t643 := (v0.y - p.y)
+  let t644 := (v0.x - p.x)
+  let t647 := ((t644 * t644) + (t643 * t643))
+  let t648 := (v1.y - p.y)
+  let t649 := (v1.x - p.x)
+  let t652 := ((t649 * t649) + (t648 * t648))
+  let t653 := (v2.y - p.y)
+  let t654 := (v2.x - p.x)
+  let t657 := ((t654 * t654) + (t653 * t653))
+  if t652 < t647 then
+    if t657 < t652 then
       ⟨v2.x, v2.y⟩
     else
       ⟨v1.x, v1.y⟩
   else
-    if t655 < t645 then
+    if t657 < t647 then
       ⟨v2.x, v2.y⟩
     else
       ⟨v0.x, v0.y⟩
 
 /-- extracted from the C++ template at T = Sym; 2 path(s) -/
 def VecAlgo3.project {α : Type} [Add α] [Mul α] [Div α] [Neg α] [LT α] [LE α] [DecidableLT α] [DecidableLE α] [DecidableEq α] [OfNat α 0] [OfNat α 2] (tmin : α) (tmax : α) (sqrt : α → α) (s : V3 α) (t : V3 α) : (V3 α) :=
-  let t658 := (V3.length tmin tmax sqrt ⟨s.x, s.y, s.z⟩)
-  let t661 := ((0 : α) * ((((0 : α) * t.x) + ((0 : α) * t.y)) + ((0 : α) * t.z)))
-  let t662 := (s.z / t658)
-  let t663 := (s.y / t658)
-  let t664 := (s.x / t658)
-  let t669 := (((t664 * t.x) + (t663 * t.y)) + (t662 * t.z))
-  if t658 = (0 : α) then
-    ⟨t661, t661, t661⟩
+  let t660 := (V3.length tmin tmax sqrt ⟨s.x, s.y, s.z⟩)
+  let t663 := ((0 : α) * ((((0 : α) * t.x) + ((0 : α) * t.y)) + ((0 : α) * t.z)))
+  let t664 := (s.z / t660)
+  let t665 := (s.y / t660)
+  let t666 := (s.x / t660)
+  let t671 := (((t666 * t.x) + (t665 * t.y)) + (t664 * t.z))
+  if t660 = (0 : α) then
+    ⟨t663, t663, t663⟩
   else
-    ⟨(t664 * t669), (t663 * t669), (t662 * t669)⟩
+    ⟨(t666 * t671), (t665 * t671), (t664 * t671)⟩
 
 /-- extracted from the C++ template at T = Sym; 2 path(s) -/
 def VecAlgo3.orthogonal {α : Type} [Add α] [Sub α] [Mul α] [Div α] [Neg α] [LT α] [LE α] [DecidableLT α] [DecidableLE α] [DecidableEq α] [OfNat α 0] [OfNat α 2] (tmin : α) (tmax : α) (sqrt : α → α) (s : V3 α) (t : V3 α) : (V3 α) :=
-  let t658 := (V3.length tmin tmax sqrt ⟨s.x, s.y, s.z⟩)
-  let t661 := ((0 : α) * ((((0 : α) * t.x) + ((0 : α) * t.y)) + ((0 : α) * t.z)))
-  let t662 := (s.z / t658)
-  let t663 := (s.y / t658)
-  let t664 := (s.x / t658)
-  let t669 := (((t664 * t.x) + (t663 * t.y)) + (t662 * t.z))
-  if t658 = (0 : α) then
-    ⟨(t.x - t661), (t.y - t661), (t.z - t661)⟩
+  let t660 := (V3.length tmin tmax sqrt ⟨s.x, s.y, s.z⟩)
+  let t663 := ((0 : α) * ((((0 : α) * t.x) + ((0 : α) * t.y)) + ((0 : α) * t.z)))
+  let t664 := (s.z / t660)
+  let t665 := (s.y / t660)
+  let t666 := (s.x / t660)
+  let t671 := (((t666 * t.x) + (t665 * t.y)) + (t664 * t.z))
+  if t660 = (0 : α) then
+    ⟨(t.x - t663), (t.y - t663), (t.z - t663)⟩
   else
-    ⟨(t.x - (t664 * t669)), (t.y - (t663 * t669)), (t.z - (t662 * t669))⟩
+    ⟨(t.x - (t666 * t671)), (t.y - (t665 * t671)), (t.z - (t664 * t671))⟩
 
 /-- extracted from the C++ template at T = Sym; 2 path(s) -/
 def VecAlgo3.reflect {α : Type} [Add α] [Sub α] [Mul α] [Div α] [Neg α] [LT α] [LE α] [DecidableLT α] [DecidableLE α] [DecidableEq α] [OfNat α 0] [OfNat α 2] (tmin : α) (tmax : α) (sqrt : α → α) (s : V3 α) (t : V3 α) : (V3 α) :=
-  let t679 := (V3.length tmin tmax sqrt ⟨t.x, t.y, t.z⟩)
-  let t682 := ((0 : α) * ((((0 : α) * s.x) + ((0 : α) * s.y)) + ((0 : α) * s.z)))
-  let t692 := (t.z / t679)
-  let t693 := (t.y / t679)
-  let t694 := (t.x / t679)
-  let t699 := (((t694 * s.x) + (t693 * s.y)) + (t692 * s.z))
-  if t679 = (0 : α) then
-    ⟨(s.x - ((2 : α) * (s.x - t682))), (s.y - ((2 : α) * (s.y - t682))), (s.z - ((2 : α) * (s.z - t682)))⟩
+  let t681 := (V3.length tmin tmax sqrt ⟨t.x, t.y, t.z⟩)
+  let t684 := ((0 : α) * ((((0 : α) * s.x) + ((0 : α) * s.y)) + ((0 : α) * s.z)))
+  let t694 := (t.z / t681)
+  let t695 := (t.y / t681)
+  let t696 := (t.x / t681)
+  let t701 := (((t696 * s.x) + (t695 * s.y)) + (t694 * s.z))
+  if t681 = (0 : α) then
+    ⟨(s.x - ((2 : α) * (s.x - t684))), (s.y - ((2 : α) * (s.y - t684))), (s.z - ((2 : α) * (s.z - t684)))⟩
   else
-    ⟨(s.x - ((2 : α) * (s.x - (t694 * t699)))), (s.y - ((2 : α) * (s.y - (t693 * t699)))), (s.z - ((2 : α) * (s.z - (t692 * t699))))⟩
+    ⟨(s.x - ((2 : α) * (s.x - (t696 * t701)))), (s.y - ((2 : α) * (s.y - (t695 * t701)))), (s.z - ((2 : α) * (s.z - (t694 * t701))))⟩
 
 /-- extracted from the C++ template at T = Sym; 4 path(s) -/
 def VecAlgo3.closestVertex {α : Type} [Add α] [Sub α] [Mul α] [LT α] [DecidableLT α] (v0 : V3 α) (v1 : V3 α) (v2 : V3 α) (p : V3 α) : (V3 α) :=
-  let t641 := (v0.y - p.y)
-  let t642 := (v0.x - p.x)
-  let t646 := (v1.y - p.y)
-  let t647 := (v1.x - p.x)
-  let t651 := (v2.y - p.y)
-  let t652 := (v2.x - p.x)
-  let t712 := (v0.z - p.z)
-  let t714 := (((t642 * t642) + (t641 * t641)) + (t712 * t712))
-  let t715 := (v1.z - p.z)
-  let t717 := (((t647 * t647) + (t646 * t646)) + (t715 * t715))
-  let t718 := (v2.z - p.z)
-  let t720 := (((t652 * t652) + (t651 * t651)) + (t718 * t718))
-  if t717 < t714 then
-    if t720 < t717 then
+  let t643 := (v0.y - p.y)
+  let t644 := (v0.x - p.x)
+  let t648 := (v1.y - p.y)
+  let t649 := (v1.x - p.x)
+  let t653 := (v2.y - p.y)
+  let t654 := (v2.x - p.x)
+  let t714 := (v0.z - p.z)
+  let t716 := (((t644 * t644) + (t643 * t643)) + (t714 * t714))
+  let t717 := (v1.z - p.z)
+  let t719 := (((t649 * t649) + (t648 * t648)) + (t717 * t717))
+  let t720 := (v2.z - p.z)
+  let t722 := (((t654 * t654) + (t653 * t653)) + (t720 * t720))
+  if t719 < t716 then
+    if t722 < t719 then
       ⟨v2.x, v2.y, v2.z⟩
     else
       ⟨v1.x, v1.y, v1.z⟩
   else
-    if t720 < t714 then
+    if t722 < t716 then
       ⟨v2.x, v2.y, v2.z⟩
     else
       ⟨v0.x, v0.y, v0.z⟩
 
 /-- extracted from the C++ template at T = Sym; 2 path(s) -/
 def VecAlgo4.project {α : Type} [Add α] [Mul α] [Div α] [Neg α] [LT α] [LE α] [DecidableLT α] [DecidableLE α] [DecidableEq α] [OfNat α 0] [OfNat α 2] (tmin : α) (tmax : α) (sqrt : α → α) (s : V4 α) (t : V4 α) : (V4 α) :=
-  let t723 := (V4.length tmin tmax sqrt ⟨s.x, s.y, s.z, s.w⟩)
-  let t726 := ((0 : α) * (((((0 : α) * t.x) + ((0 : α) * t.y)) + ((0 : α) * t.z)) + ((0 : α) * t.w)))
-  let t727 := (s.w / t723)
-  let t728 := (s.z / t723)
-  let t729 := (s.y / t723)
-  let t730 := (s.x / t723)
-  let t737 := ((((t730 * t.x) + (t729 * t.y)) + (t728 * t.z)) + (t727 * t.w))
-  if t723 = (0 : α) then
-    ⟨t726, t726, t726, t726⟩
+  let t725 := (V4.length tmin tmax sqrt ⟨s.x, s.y, s.z, s.w⟩)
+  let t728 := ((0 : α) * (((((0 : α) * t.x) + ((0 : α) * t.y)) + ((0 : α) * t.z)) + ((0 : α) * t.w)))
+  let t729 := (s.w / t725)
+  let t730 := (s.z / t725)
+  let t731 := (s.y / t725)
+  let t732 := (s.x / t725)
+  let t739 := ((((t732 * t.x) + (t731 * t.y)) + (t730 * t.z)) + (t729 * t.w))
+  if t725 = (0 : α) then
+    ⟨t728, t728, t728, t728⟩
   else
-    ⟨(t730 * t737), (t729 * t737), (t728 * t737), (t727 * t737)⟩
+    ⟨(t732 * t739), (t731 * t739), (t730 * t739), (t729 * t739)⟩
 
 /-- extracted from the C++ template at T = Sym; 2 path(s) -/
 def VecAlgo4.orthogonal {α : Type} [Add α] [Sub α] [Mul α] [Div α] [Neg α] [LT α] [LE α] [DecidableLT α] [DecidableLE α] [DecidableEq α] [OfNat α 0] [OfNat α 2] (tmin : α) (tmax : α) (sqrt : α → α) (s : V4 α) (t : V4 α) : (V4 α) :=
-  let t723 := (V4.length tmin tmax sqrt ⟨s.x, s.y, s.z, s.w⟩)
-  let t726 := ((0 : α) * (((((0 : α) * t.x) + ((0 : α) * t.y)) + ((0 : α) * t.z)) + ((0 : α) * t.w)))
-  let t727 := (s.w / t723)
-  let t728 := (s.z / t723)
-  let t729 := (s.y / t723)
-  let t730 := (s.x / t723)
-  let t737 := ((((t730 * t.x) + (t729 * t.y)) + (t728 * t.z)) + (t727 * t.w))
-  if t723 = (0 : α) then
-    ⟨(t.x - t726), (t.y - t726), (t.z - t726), (t.w - t726)⟩
+  let t725 := (V4.length tmin tmax sqrt ⟨s.x, s.y, s.z, s.w⟩)
+  let t728 := ((0 : α) * (((((0 : α) * t.x) + ((0 : α) * t.y)) + ((0 : α) * t.z)) + ((0 : α) * t.w)))
+  let t729 := (s.w / t725)
+  let t730 := (s.z / t725)
+  let t731 := (s.y / t725)
+  let t732 := (s.x / t725)
+  let t739 := ((((t732 * t.x) + (t731 * t.y)) + (t730 * t.z)) + (t729 * t.w))
+  if t725 = (0 : α) then
+    ⟨(t.x - t728), (t.y - t728), (t.z - t728), (t.w - t728)⟩
   else
-    ⟨(t.x - (t730 * t737)), (t.y - (t729 * t737)), (t.z - (t728 * t737)), (t.w - (t727 * t737))⟩
+    ⟨(t.x - (t732 * t739)), (t.y - (t731 * t739)), (t.z - (t730 * t739)), (t.w - (t729 * t739))⟩
 
 /-- extracted from the C++ template at T = Sym; 2 path(s) -/
 def VecAlgo4.reflect {α : Type} [Add α] [Sub α] [Mul α] [Div α] [Neg α] [LT α] [LE α] [DecidableLT α] [DecidableLE α] [DecidableEq α] [OfNat α 0] [OfNat α 2] (tmin : α) (tmax : α) (sqrt : α → α) (s : V4 α) (t : V4 α) : (V4 α) :=
-  let t750 := (V4.length tmin tmax sqrt ⟨t.x, t.y, t.z, t.w⟩)
-  let t753 := ((0 : α) * (((((0 : α) * s.x) + ((0 : α) * s.y)) + ((0 : α) * s.z)) + ((0 : α) * s.w)))
-  let t766 := (t.w / t750)
-  let t767 := (t.z / t750)
-  let t768 := (t.y / t750)
-  let t769 := (t.x / t750)
-  let t776 := ((((t769 * s.x) + (t768 * s.y)) + (t767 * s.z)) + (t766 * s.w))
-  if t750 = (0 : α) then
-    ⟨(s.x - ((2 : α) * (s.x - t753))), (s.y - ((2 : α) * (s.y - t753))), (s.z - ((2 : α) * (s.z - t753))), (s.w - ((2 : α) * (s.w - t753)))⟩
+  let t752 := (V4.length tmin tmax sqrt ⟨t.x, t.y, t.z, t.w⟩)
+  let t755 := ((0 : α) * (((((0 : α) * s.x) + ((0 : α) * s.y)) + ((0 : α) * s.z)) + ((0 : α) * s.w)))
+  let t768 := (t.w / t752)
+  let t769 := (t.z / t752)
+  let t770 := (t.y / t752)
+  let t771 := (t.x / t752)
+  let t778 := ((((t771 * s.x) + (t770 * s.y)) + (t769 * s.z)) + (t768 * s.w))
+  if t752 = (0 : α) then
+    ⟨(s.x - ((2 : α) * (s.x - t755))), (s.y - ((2 : α) * (s.y - t755))), (s.z - ((2 : α) * (s.z - t755))), (s.w - ((2 : α) * (s.w - t755)))⟩
   else
-    ⟨(s.x - ((2 : α) * (s.x - (t769 * t776)))), (s.y - ((2 : α) * (s.y - (t768 * t776)))), (s.z - ((2 : α) * (s.z - (t767 * t776)))), (s.w - ((2 : α) * (s.w - (t766 * t776))))⟩
+    ⟨(s.x - ((2 : α) * (s.x - (t771 * t778)))), (s.y - ((2 : α) * (s.y - (t770 * t778)))), (s.z - ((2 : α) * (s.z - (t769 * t778)))), (s.w - ((2 : α) * (s.w - (t768 * t778))))⟩
 
 /-- extracted from the C++ template at T = Sym; 4 path(s) -/
 def VecAlgo4.closestVertex {α : Type} [Add α] [Sub α] [Mul α] [LT α] [DecidableLT α] (v0 : V4 α) (v1 : V4 α) (v2 : V4 α) (p : V4 α) : (V4 α) :=
-  let t641 := (v0.y - p.y)
-  let t642 := (v0.x - p.x)
-  let t646 := (v1.y - p.y)
-  let t647 := (v1.x - p.x)
-  let t651 := (v2.y - p.y)
-  let t652 := (v2.x - p.x)
-  let t712 := (v0.z - p.z)
-  let t715 := (v1.z - p.z)
-  let t718 := (v2.z - p.z)
-  let t797 := (v0.w - p.w)
-  let t799 := ((((t642 * t642) + (t641 * t641)) + (t712 * t712)) + (t797 * t797))
-  let t800 := (v1.w - p.w)
-  let t802 := ((((t647 * t647) + (t646 * t646)) + (t715 * t715)) + (t800 * t800))
-  let t803 := (v2.w - p.w)
-  let t805 := ((((t652 * t652) + (t651 * t651)) + (t718 * t718)) + (t803 * t803))
-  if t802 < t799 then
-    if t805 < t802 then
+  let t643 := (v0.y - p.y)
+  let t644 := (v0.x - p.x)
+  let t648 := (v1.y - p.y)
+  let t649 := (v1.x - p.x)
+  let t653 := (v2.y - p.y)
+  let t654 := (v2.x - p.x)
+  let t714 := (v0.z - p.z)
+  let t717 := (v1.z - p.z)
+  let t720 := (v2.z - p.z)
+  let t799 := (v0.w - p.w)
+  let t801 := ((((t644 * t644) + (t643 * t643)) + (t714 * t714)) + (t799 * t799))
+  let t802 := (v1.w - p.w)
+  let t804 := ((((t649 * t649) + (t648 * t648)) + (t717 * t717)) + (t802 * t802))
+  let t805 := (v2.w - p.w)
+  let t807 := ((((t654 * t654) + (t653 * t653)) + (t720 * t720)) + (t805 * t805))
+  if t804 < t801 then
+    if t807 < t804 then
       ⟨v2.x, v2.y, v2.z, v2.w⟩
     else
       ⟨v1.x, v1.y, v1.z, v1.w⟩
   else
-    if t805 < t799 then
+    if t807 < t801 then
       ⟨v2.x, v2.y, v2.z, v2.w⟩
     else
       ⟨v0.x, v0.y, v0.z, v0.w⟩
